@@ -52,7 +52,11 @@ Definition inv2 (s : lzma2) : Prop :=
     (m_need_props s = false -> exists c, m_coder s = Some c /\ coder_ok c (w_full (m_win s))) /\
     (0 < m_uncompressed_size s -> m_is_lzma_chunk s = true -> m_need_props s = false).
 
-Definition rinv2 (s : lzma2) : Prop := m_error s = None /\ (m_end_reached s = true \/ inv2 s).
+Definition rinv2 (s : lzma2) : Prop :=
+  m_error s = None /\ bytes_ok (m_in s) = true /\ (m_end_reached s = true \/ inv2 s).
+
+Lemma inv2_bytes s : inv2 s -> bytes_ok (m_in s) = true.
+Proof. intros (hist & _ & _ & _ & _ & _ & Hb & _). exact Hb. Qed.
 
 (* three times the bytes the reader can still return: 2 MiB per three source bytes left, plus the
    rest of the current chunk *)
@@ -64,7 +68,7 @@ Proof. intros (hist & _ & _ & _ & _ & _ & _ & Hu & _). unfold P2. pose proof (zl
 
 Lemma pot2_nonneg s : rinv2 s -> 0 <= pot2 s.
 Proof.
-  intros (_ & [He|Hi]); unfold pot2.
+  intros (_ & _ & [He|Hi]); unfold pot2.
   - rewrite He. lia.
   - destruct (m_end_reached s); [lia|]. pose proof (P2_nonneg s Hi). lia.
 Qed.
@@ -144,7 +148,7 @@ Lemma header2_total s : inv2 s -> m_uncompressed_size s = 0 ->
   (exists e, lzma2_chunk_header s = Err e) \/
   exists s1, lzma2_chunk_header s = Ok s1 /\ m_error s1 = m_error s /\
     (length (m_in s1) <= length (m_in s))%nat /\
-    ((m_end_reached s1 = true /\ P2 s1 <= P2 s /\ 0 <= P2 s1) \/
+    ((m_end_reached s1 = true /\ P2 s1 <= P2 s /\ 0 <= P2 s1 /\ bytes_ok (m_in s1) = true) \/
      (m_end_reached s1 = false /\ inv2 s1 /\ 0 < m_uncompressed_size s1 /\ P2 s1 <= P2 s /\
       w_size (m_win s1) = w_size (m_win s) /\
       (w_pos (m_win s1) = w_size (m_win s1) -> w_pos (m_win s) = w_size (m_win s)))).
@@ -155,7 +159,7 @@ Proof.
   apply bytes_ok_cons in Hbi as (Hc & Hb1).
   destruct (Z.eqb_spec control 0) as [Hc0|Hc0].
   { right. eexists. split; [reflexivity|]. msimpl. split; [reflexivity|]. split; [try rewrite Ein; cbn [length]; lia|].
-    left. split; [reflexivity|]. unfold P2. msimpl. rewrite Ein, zlen_cons. pose proof (zlen_nonneg in1). lia. }
+    left. split; [reflexivity|]. unfold P2. msimpl. rewrite Ein, zlen_cons. pose proof (zlen_nonneg in1). split; [lia|]. split; [lia | exact Hb1]. }
   pose proof (header_win s control Hi Hz) as HW.
   match goal with |- context [obind ?st1 _] => destruct st1 as [[[w1 np1] ndr1]|e|e|] eqn:Est1 end;
     cbn [obind]; try contradiction; [|left; eexists; reflexivity].
@@ -243,7 +247,7 @@ Proof. intros [_ _ [F _] _ _ _ _ _] [_ _ [F' _] _ _ _ _ _] Hs Hl. lia. Qed.
 Definition iter2_post (s : lzma2) (len : Z) (out : list Z) (s1 : lzma2) : Prop :=
   m_error s1 = m_error s /\
   ((m_end_reached s1 = true /\ out = []) \/ (m_end_reached s1 = false /\ inv2 s1)) /\
-  zlen out <= len /\ 3 * zlen out + P2 s1 <= P2 s /\ 0 <= P2 s1 /\
+  zlen out <= len /\ 3 * zlen out + P2 s1 <= P2 s /\ 0 <= P2 s1 /\ bytes_ok (m_in s1) = true /\
   (length (m_in s1) <= length (m_in s))%nat /\
   (m_end_reached s1 = false ->
      w_pos (m_win s1) < w_size (m_win s1) /\ w_size (m_win s1) = w_size (m_win s) /\
@@ -286,7 +290,7 @@ Proof.
       split; [rewrite Fpl, Fpd, Ffull; exact Hpd1|].
       split; [intros _; exists c1; split; [reflexivity | rewrite Ffull; exact Hco1]|].
       intros _ _. apply Hlz; [exact Hup | reflexivity]. }
-    split; [lia|]. split; [unfold P2; msimpl; lia|]. split; [unfold P2; msimpl; pose proof (zlen_nonneg (m_in s)); lia|]. split; [lia|].
+    split; [lia|]. split; [unfold P2; msimpl; lia|]. split; [unfold P2; msimpl; pose proof (zlen_nonneg (m_in s)); lia|]. split; [exact Hbi|]. split; [lia|].
     intros _. split; [rewrite Fsz; apply Fpos; lia|]. split; [lia|].
     destruct (Z.eq_dec (w_pos (m_win s)) (w_size (m_win s))); [right; assumption | left; lia].
   - (* stored chunk *)
@@ -327,6 +331,7 @@ Proof.
       intros _ Hx. congruence. }
     split; [lia|]. split; [unfold P2; msimpl; pose proof (skipn_length (Z.to_nat cn) (m_in s)); unfold zlen in *; lia|].
     split; [unfold P2; msimpl; pose proof (zlen_nonneg (skipn (Z.to_nat cn) (m_in s))); lia|].
+    split; [apply b_skipn; exact Hbi|].
     split; [rewrite skipn_length; lia|].
     intros _. split; [rewrite Fsz; apply Fpos; lia|]. split; [lia|].
     destruct (Z.eq_dec (w_pos (m_win s)) (w_size (m_win s))); [right; assumption | left; unfold cn in *; lia].
@@ -341,16 +346,16 @@ Proof.
   destruct (Z.eq_dec (m_uncompressed_size s) 0) as [Hz|Hnz].
   - destruct (header2_total s Hi Hz) as [(e & He)|(s1 & Hh & Herr & Hlen1 & Hcase)].
     + left. exists e. unfold lzma2_iter. rewrite Hz, He. reflexivity.
-    + destruct Hcase as [(Hend & HP & HPn)|(Hend & Hi1 & Hup & HP & Hsz & Hfull)].
+    + destruct Hcase as [(Hend & HP & HPn & Hbe)|(Hend & Hi1 & Hup & HP & Hsz & Hfull)].
       * right. exists [], s1. split.
         { unfold lzma2_iter. rewrite Hz, Hh. change (0 =? 0) with true. cbv iota. cbn [obind]. rewrite Hend. reflexivity. }
         unfold iter2_post. split; [exact Herr|]. split; [left; split; [exact Hend | reflexivity]|].
-        change (zlen (@nil Z)) with 0. split; [lia|]. split; [lia|]. split; [exact HPn|]. split; [exact Hlen1|]. intros Hx. congruence.
+        change (zlen (@nil Z)) with 0. split; [lia|]. split; [lia|]. split; [exact HPn|]. split; [exact Hbe|]. split; [exact Hlen1|]. intros Hx. congruence.
       * rewrite (iter_after_header s s1 len Hz Hh Hup).
-        destruct (body2_total s1 len Hi1 Hup Hend Hlen) as [He|(out & s2 & Hit & Herr2 & Hst2 & Hol & HP2 & HPn2 & Hl2 & Hprog)];
+        destruct (body2_total s1 len Hi1 Hup Hend Hlen) as [He|(out & s2 & Hit & Herr2 & Hst2 & Hol & HP2 & HPn2 & Hb2 & Hl2 & Hprog)];
           [left; exact He|].
         right. exists out, s2. split; [exact Hit|]. unfold iter2_post.
-        split; [congruence|]. split; [exact Hst2|]. split; [exact Hol|]. split; [lia|]. split; [exact HPn2|]. split; [lia|].
+        split; [congruence|]. split; [exact Hst2|]. split; [exact Hol|]. split; [lia|]. split; [exact HPn2|]. split; [exact Hb2|]. split; [lia|].
         intros Hx. destruct (Hprog Hx) as (A & B & C). split; [exact A|]. split; [congruence|].
         destruct C as [C|C]; [left; exact C | right; apply Hfull; exact C].
   - apply body2_total; [exact Hi | lia | exact Hne | exact Hlen].
@@ -362,7 +367,7 @@ Lemma loop2_total fuel : forall s len acc, inv2 s -> m_end_reached s = false -> 
   (exists e, lzma2_read_loop fuel s len acc = Err e) \/
   exists new s1, lzma2_read_loop fuel s len acc = Ok (rev acc ++ new, s1) /\ m_error s1 = m_error s /\
     (m_end_reached s1 = true \/ inv2 s1) /\
-    zlen new <= len /\ 3 * zlen new + P2 s1 <= P2 s /\ 0 <= P2 s1 /\
+    zlen new <= len /\ 3 * zlen new + P2 s1 <= P2 s /\ 0 <= P2 s1 /\ bytes_ok (m_in s1) = true /\
     (length (m_in s1) <= length (m_in s))%nat /\
     (m_end_reached s1 = false -> zlen new = len).
 Proof.
@@ -370,25 +375,25 @@ Proof.
   - exfalso. destruct (w_pos (m_win s) =? w_size (m_win s)); lia.
   - cbn [lzma2_read_loop]. destruct (Z.leb_spec len 0) as [Hz|Hpos].
     + right. exists [], s. rewrite frev_rev, app_nil_r. split; [reflexivity|]. split; [reflexivity|]. split; [right; exact Hi|].
-      change (zlen (@nil Z)) with 0. split; [lia|]. split; [lia|]. split; [apply P2_nonneg; exact Hi|]. split; [lia|]. intros _. lia.
-    + destruct (iter2_total s len Hi Hne Hpos) as [(e & He)|(out & s2 & Hit & Herr & Hst & Hol & HP & HPn & Hl & Hprog)].
+      change (zlen (@nil Z)) with 0. split; [lia|]. split; [lia|]. split; [apply P2_nonneg; exact Hi|]. split; [apply inv2_bytes; exact Hi|]. split; [lia|]. intros _. lia.
+    + destruct (iter2_total s len Hi Hne Hpos) as [(e & He)|(out & s2 & Hit & Herr & Hst & Hol & HP & HPn & Hbo & Hl & Hprog)].
       * left. rewrite He. cbn [obind]. eexists; reflexivity.
       * rewrite Hit. cbn [obind]. pose proof (zlen_nonneg out) as Ho0.
         destruct Hst as [(Hend & Hout)|(Hend & Hi2)]; rewrite Hend.
         -- right. exists [], s2. rewrite frev_rev, app_nil_r. subst out. change (zlen (@nil Z)) with 0 in *.
            split; [reflexivity|]. split; [exact Herr|]. split; [left; exact Hend|].
-           split; [lia|]. split; [lia|]. split; [exact HPn|]. split; [exact Hl|]. intros Hx. congruence.
+           split; [lia|]. split; [lia|]. split; [exact HPn|]. split; [exact Hbo|]. split; [exact Hl|]. intros Hx. congruence.
         -- destruct (Hprog Hend) as (Hroom & Hsz & Hadv).
            assert (Hf2 : len - zlen out + 1 + (if w_pos (m_win s2) =? w_size (m_win s2) then 1 else 0) <= Z.of_nat f).
            { destruct (Z.eqb_spec (w_pos (m_win s2)) (w_size (m_win s2))); [lia|].
              destruct (Z.eqb_spec (w_pos (m_win s)) (w_size (m_win s))); destruct Hadv as [Hadv|Hadv]; lia. }
            destruct (IH s2 (len - zlen out) (rev_append out acc) Hi2 Hend ltac:(lia) Hf2)
-             as [(e & He)|(new & s1 & Hlp & Herr1 & Hi1 & Hnl & HP1 & HPn1 & Hl1 & Hfull)].
+             as [(e & He)|(new & s1 & Hlp & Herr1 & Hi1 & Hnl & HP1 & HPn1 & Hb1 & Hl1 & Hfull)].
            ++ left. rewrite He. eexists; reflexivity.
            ++ right. exists (out ++ new), s1.
               rewrite Hlp, rev_append_rev, rev_app_distr, rev_involutive, <- app_assoc.
               split; [reflexivity|]. split; [congruence|]. split; [exact Hi1|]. rewrite zlen_app.
-              split; [lia|]. split; [lia|]. split; [exact HPn1|]. split; [lia|]. intros Hx. specialize (Hfull Hx). lia.
+              split; [lia|]. split; [lia|]. split; [exact HPn1|]. split; [exact Hb1|]. split; [lia|]. intros Hx. specialize (Hfull Hx). lia.
 Qed.
 
 (* ---- read(buf) ------------------------------------------------------------------------------------ *)
@@ -399,20 +404,20 @@ Theorem read2_total s n : rinv2 s ->
     (length (m_in s1) <= length (m_in s))%nat /\
     (m_end_reached s1 = false -> 0 < n -> zlen out = n).
 Proof.
-  intros (Herr & Hi). unfold lzma2_read.
+  intros (Herr & Hbs & Hi). unfold lzma2_read.
   destruct (Z.leb_spec n 0) as [Hz|Hpos].
-  { right. exists [], s. split; [reflexivity|]. split; [split; assumption|]. change (zlen (@nil Z)) with 0.
+  { right. exists [], s. split; [reflexivity|]. split; [split; [assumption | split; assumption]|]. change (zlen (@nil Z)) with 0.
     split; [lia|]. split; [lia|]. split; [lia|]. intros _ Hx. lia. }
   rewrite Herr.
   destruct (m_end_reached s) eqn:Eend.
-  { right. exists [], s. split; [reflexivity|]. split; [split; [exact Herr | left; exact Eend]|]. change (zlen (@nil Z)) with 0.
+  { right. exists [], s. split; [reflexivity|]. split; [split; [exact Herr | split; [exact Hbs | left; exact Eend]]|]. change (zlen (@nil Z)) with 0.
     split; [lia|]. split; [lia|]. split; [lia|]. intros Hx _. congruence. }
   assert (Hi' : inv2 s) by (destruct Hi as [Hx|Hx]; [congruence | exact Hx]).
   destruct (loop2_total (Z.to_nat (2 * n + 4)) s n [] Hi' Eend ltac:(lia)
               ltac:(destruct (w_pos (m_win s) =? w_size (m_win s)); lia))
-    as [(e & He)|(new & s1 & Hl & Herr1 & Hi1 & Hnl & HP & HPn & Hin & Hfull)].
+    as [(e & He)|(new & s1 & Hl & Herr1 & Hi1 & Hnl & HP & HPn & Hbn & Hin & Hfull)].
   - left. exists e. exact He.
-  - right. exists new, s1. cbn [rev app] in Hl. split; [exact Hl|]. split; [split; [congruence | exact Hi1]|].
+  - right. exists new, s1. cbn [rev app] in Hl. split; [exact Hl|]. split; [split; [congruence | split; [exact Hbn | exact Hi1]]|].
     split; [lia|]. split.
     { unfold pot2. rewrite Eend. pose proof (zlen_nonneg new).
       destruct (m_end_reached s1) eqn:E1.
@@ -470,7 +475,7 @@ Proof.
   { exists hist. msimpl. split; [exact R|]. split; [exact Hhb|]. split; [apply probs_ok_empty|].
     split; [unfold rdec_wf; cbn [rd_range]; lia|]. split; [exact Hst|]. split; [exact Hb|]. split; [lia|].
     split; [intros _; exact Hpl|]. split; [rewrite Hpl; lia|]. split; [intros Hx; discriminate | intros Hx; lia]. }
-  split; [split; [reflexivity | right; exact Hi]|]. split; [exact Hi|]. split; [reflexivity|]. split; [reflexivity|].
+  split; [split; [reflexivity | split; [exact Hb | right; exact Hi]]|]. split; [exact Hi|]. split; [reflexivity|]. split; [reflexivity|].
   unfold P2. msimpl. lia.
 Qed.
 
